@@ -25,6 +25,12 @@ structure Val where
   data : Bytes := []
   deriving DecidableEq, Repr, Inhabited
 
+instance instDecidableEqRes {α : Type} [DecidableEq α] : DecidableEq (Res α)
+  | .ok a, .ok b => if h : a = b then isTrue (by rw [h]) else isFalse (fun h' => by cases h'; exact h rfl)
+  | .error a, .error b => if h : a = b then isTrue (by rw [h]) else isFalse (fun h' => by cases h'; exact h rfl)
+  | .ok _, .error _ => isFalse (fun h => by cases h)
+  | .error _, .ok _ => isFalse (fun h => by cases h)
+
 /-- value of a nasMessage struct: one entry per embedded field, `none` = nil pointer -/
 abbrev Msg := List (Option Val)
 
